@@ -22,13 +22,19 @@ def hex (l : List Nat) : String :=
 
 def b01 (b : Bool) : String := if b then "1" else "0"
 
+def insSorted (p : Int × Nat) : List (Int × Nat) → List (Int × Nat)
+  | [] => [p]
+  | q :: r => if p.1 < q.1 then p :: q :: r else q :: insSorted p r
+
 def showBody : Body → List String
   | .data k => ["D", toString k]
   | .ack => ["A"]
   | .info u p m l q n => ["I", toString u, toString p, toString m, b01 l, b01 q, hex n]
   | .closed u p m l q n => ["C", toString u, toString p, toString m, b01 l, b01 q, hex n]
   | .failed d t s x => ["F", toString d, toString t, toString s, toString x]
-  | .timing cs ps => ["T", toString cs.length] ++ cs.flatMap (fun p => [toString p.1, toString p.2]) ++
+  | .timing cs0 ps =>
+    let cs := cs0.foldl (fun acc p => insSorted p acc) []
+    ["T", toString cs.length] ++ cs.flatMap (fun p => [toString p.1, toString p.2]) ++
       [toString ps.length] ++ ps.flatMap (fun p => [toString p.1, toString p.2])
   | .traffic sq sb ts cs => ["R", toString sq, toString sb] ++ ts.map toString ++ cs.map toString
   | .active n ids pids => ["V", toString n, toString ids.length] ++ ids.map toString ++
